@@ -98,6 +98,7 @@ def _run_m(case):
     ok, ms = lib(fails, "slice", lambda: m.slice(jnp.array(idx)))
     if not ok:
         return fails
+    _empty_slice(fails, m, case["kind"], D)
     Lm, _, _ = libx.measure_params_np(case["kind"], case["m"])
     kap = _kap(Lm)
     x = J(case["x"])
@@ -240,6 +241,7 @@ def _run_p(case):
     Lm, _, _ = libx.measure_params_np(case["mkind"], case["m"])
     kap = _kap(Lm)
     uf = case["update_full"]
+    _empty_slice(fails, f, "factor:" + case["fkind"], int(Lm.shape[-1]))
     pts = np.asarray(case["x"], float)
     tag = f"{op}[{case['fkind']}]"
     if op == "multiply":
@@ -267,6 +269,24 @@ def _run_p(case):
 # ------------------------------------------------------------------------------------------ conditionals
 _COPS = ["condition_on_x", "set_y", "joint", "marginal", "conditional", "conditional_entropy", "mutual_information",
          "integrate_log_conditional", "integrate_log_conditional_y", "get_conditional_mu"]
+
+
+def _empty_slice(fails, obj, tag, D=None):
+    """A selection that picks no component (e.g. flatnonzero of an all-False mask) is an index array too: the result is a
+    well-formed batch of zero components."""
+    import jax.numpy as jnp
+
+    for nm, idx in (("jax_int32", jnp.array([], dtype=jnp.int32)), ("numpy_int64", np.array([], dtype=np.int64))):
+        ok, e = lib(fails, f"{tag}.slice(empty:{nm})", lambda: obj.slice(idx))
+        if not ok:
+            return
+        if int(e.R) != 0:
+            fails.append(Failure(f"{tag}.slice(empty):R", f"{tag}: slice with an empty index array has R={e.R}"))
+            return
+        if D is not None and hasattr(e, "evaluate_ln"):
+            ok, v = lib(fails, f"{tag}.slice(empty).evaluate_ln", lambda: np.asarray(e.evaluate_ln(jnp.zeros((2, D)))))
+            if ok and v.shape != (0, 2):
+                fails.append(Failure(f"{tag}.slice(empty):shape", f"{tag}: evaluate_ln of an empty batch has shape {v.shape}"))
 
 
 def _f64_net(c):
@@ -334,6 +354,8 @@ def _run_c(case):
     c, kw = cu
     S = np.asarray(case["c"]["Sigma"], float)
     kap = _kap(S, np.asarray(case["px"]["Sigma"], float))
+    if kind != "nn":
+        _empty_slice(fails, c, "cond:" + kind)
     if case["carrier"] == "cond":
         ok, cs_ = lib(fails, f"{kind}.slice", lambda: _slice_cond(case, c, kw, idx))
         if not ok:
